@@ -477,3 +477,5 @@ def run(ctx, rep):
     rule_prestep(ctx, rep, rid="R-C01-prestep")
     from rules import c01_choice
     c01_choice.run(ctx, rep)
+    from rules import c01_shape
+    c01_shape.run(ctx, rep)
